@@ -19,6 +19,16 @@ NAMED_FLAGS = ANYREQ | A.F_TIME | 0x20 | A.F_NOFRAG | A.F_ADMIN | A.F_FRAG
 RESERVED_BITS = [0x8, 0x10, 0x80, 0x100, 0x200, 0x800, 0x1000, 0x2000, 0x8000, 0x80000, 0x100000, 0x200000]
 
 
+EID_SUFFIXES = ['?q=1', '#frag', '?', '#', '?a#b', '?#', '#inbox', '?a=1&b=2']
+
+
+def eid_suffix(e, rng):
+    ''' append a query / fragment part to a dtn EID (other EIDs are returned as they are) '''
+    if not isinstance(e, dict) or 'dtn' not in e or rng.random() < 0.3:
+        return e
+    return A.dtn(bytes.fromhex(e['dtn']).decode('utf8') + rng.choice(EID_SUFFIXES))
+
+
 def noncanon_uint(n, rng):
     ''' a valid but non-shortest CBOR unsigned integer '''
     k = rng.choice([1, 2, 4])
@@ -62,7 +72,12 @@ def gen_bundle(rng, seq, mode=None):
         # which RFC 9171 allows when a BIB covers the primary block
         flags |= rng.choice(RESERVED_BITS) | rng.choice([0] + RESERVED_BITS)
         pct = rng.choice([0, 0, pct])
-    p = A.mk_pri(rng.choice(DESTS), rng.choice(SRCS), [create, seq], flags=flags, ct=pct,
+    dest, src = rng.choice(DESTS), rng.choice(SRCS)
+    if rng.random() < 0.12:
+        # query / fragment parts (empty ones included) in the primary EIDs; half of them under primary CRC type 0
+        dest, src, rpt = [eid_suffix(e, rng) for e in (dest, src, rpt)]
+        pct = rng.choice([0, 0, pct])
+    p = A.mk_pri(dest, src, [create, seq], flags=flags, ct=pct,
                  rpt=rpt, life=life)
     if mode == 'nullrpt':
         # a CBOR null report-to under a primary CRC is rejected at the CRC gate (the CRC is checked over a
@@ -224,6 +239,8 @@ def monitors(chk, case, obs, only=None):
                 sig = 'C11:absent-report-to-rewritten'
             elif diffs == ['flags'] and p['flags'] & ~NAMED_FLAGS:
                 sig = 'C11:reserved-flag-bits-dropped'
+            elif set(diffs) <= set(('dest', 'src', 'rpt')):
+                sig = 'C11:eid-text-changed'
             else:
                 sig = 'C11:primary-changed'
             chk.violation(sig, '%s: primary fields %s changed: received %s forwarded %s'
@@ -352,6 +369,42 @@ def w_resflags():  # reserved flag bit 0x200000 next to NO_FRAGMENT, primary CRC
     return _w('witness-reserved-flags', [], flags=0x200004)
 
 
+def w_eidparts():  # a fragment part, a bare '?' and both parts in the three primary EIDs, primary CRC type 0
+    b = _w('witness-eid-parts', [])
+    b['pri']['dest'] = A.dtn('//far/x#inbox')
+    b['pri']['src'] = A.dtn('//src/?')
+    b['pri']['rpt'] = A.dtn('//rpt/?a#b')
+    return b
+
+
+def eid_text_probe(chk):
+    ''' EID texts that the code as it stands re-encodes differently (observed, counted, not judged here):
+    a dtn EID with an authority but no path gets a '/' appended by EidField.i2m when the primary block is
+    re-encoded for forwarding. Outside the model (EIDs are opaque octets there). '''
+    for (dest, src, rpt) in (('//far/x', '//nopath', '//rpt/'), ('//far/x', '//src/', '//nopath?q'),
+                             ('//far/x', 'none', '//rpt/')):
+        b = _w('eid-probe', [])
+        b['pri']['dest'], b['pri']['src'], b['pri']['rpt'] = A.dtn(dest), A.dtn(src), A.dtn(rpt)
+        case = mk_case([b], now0=W_NOW - 3)
+        fix = A.Fixture(RX, TX)
+        for it in case['items']:
+            it['data'] = A.enc_bundle(it['b'])
+        try:
+            _ev, obs = A.run_real(fix, case['items'])
+        except Exception:
+            chk.count('eid-probe:error')
+            continue
+        for o in obs:
+            for h in o['tx']:
+                d = A.dec_bundle(bytes.fromhex(h))
+                for f in ('dest', 'src', 'rpt'):
+                    if d.pri[f] != b['pri'][f]:
+                        same_text = A.eid_text(b['pri'][f]) == A.eid_text(d.pri[f])
+                        chk.count('eid-probe:%s %s -> %s%s' % (f, A.eid_text(b['pri'][f]), A.eid_text(d.pri[f]),
+                                                               ' (same text, SSP re-encoded as uint 0)' if same_text else ''))
+        chk.count('eid-probe')
+
+
 def w_future():    # wFuture: creation time 1 s ahead of the node clock (W_NOW = 9000)
     return _w('witness-future', [], ts=(10000, 0))
 
@@ -444,7 +497,7 @@ def run(chk):
     chk.cov['rule'] = ('received bundles routed forward: 0..3 previous-node (incl. malformed BTSD), 0..2 hop-count, '
                        '0..3 age, 0..2 unknown extension blocks in any order, block numbers drawn from '
                        '{2..13,24,255,256,300,65536}, CRC type 0/1/2 per block, creation time past/0/future, '
-                       'lifetime 0, report flags, reserved flag bits (primary CRC 0/1/2), null report-to, admin-record payloads (canonical / non-shortest), '
+                       'lifetime 0, query / fragment parts in the primary EIDs, report flags, reserved flag bits (primary CRC 0/1/2), null report-to, admin-record payloads (canonical / non-shortest), '
                        'duplicate block numbers (two or three equal, extension block numbered 1 or 0, payload sharing a '
                        'number), '
                        'fragments, malformed layouts (payload not last / not numbered 1 / absent), transmit routes '
@@ -465,7 +518,7 @@ def run(chk):
     if corpus:
         run_cases(chk, corpus)
     cases = [mk_case([w()], now0=W_NOW - 3) for w in (w_d10, w_d11, w_life0, w_dupprev, w_dupage, w_adminnc, w_dupnum,
-                                                               w_dupnum_pay, w_resflags, w_future)]
+                                                               w_dupnum_pay, w_resflags, w_future, w_eidparts)]
     n = 700 if chk.tier == 'quick' else 30000
     seq = 0
     for i in range(n):
@@ -479,6 +532,7 @@ def run(chk):
         run_cases(chk, cases[i:i + 200])
     run_cases(chk, [mk_case([w_admin_weird()], now0=W_NOW - 3)], compare=False)
     zero_block_leak(chk)
+    eid_text_probe(chk)
 
 
 def replay(chk, path):
